@@ -841,6 +841,39 @@ impl Runner {
                     }
                 }
             }
+            ["dumpw"] => {
+                let Some(s) = self.store.as_ref() else { return self.emit("dumpw none") };
+                use raft_log::DumpApi;
+                use raft_log::codeq::OffsetSize;
+                let mut lines = vec![];
+                let r = catch_unwind(AssertUnwindSafe(|| {
+                    s.dump().write_with(|chunk_id, i, res| {
+                        match res {
+                            Ok((seg, rec)) => lines.push(format!(
+                                "rec {} {} {},{} {}",
+                                chunk_id.0,
+                                i,
+                                seg.offset().0,
+                                seg.size().0,
+                                show_record(&rec)
+                            )),
+                            Err(e) => lines.push(format!("rec {} {} err {}", chunk_id.0, i, err_kind(&e))),
+                        }
+                        Ok(())
+                    })
+                }));
+                for l in lines {
+                    self.emit(&l);
+                }
+                match r {
+                    Ok(Ok(())) => self.emit("dumpw end"),
+                    Ok(Err(e)) => self.emit(&format!("dumpw err {}", err_kind(&e))),
+                    Err(_) => {
+                        self.emit("dumpw panic");
+                        self.stopped = true;
+                    }
+                }
+            }
             ["dir"] => self.show_dir(),
             ["lay"] => {}
             ["crash"] => self.crash(),
